@@ -11,6 +11,10 @@ class Unsupported(EngineError):
     pass
 
 
+class ClauseVacuous(Exception):
+    """the clause refers to a snapshot point this path never reached: it says nothing here"""
+
+
 class PathEnd(Exception):
     """The current path is finished (after a loop-body back edge, an infeasible assumption ...)."""
 
@@ -223,16 +227,17 @@ def mk_real(r):
 class Cell:
     """Heap cell: type + content.  content is a V (list/dict/set) or dict name->V (Obj)."""
 
-    __slots__ = ("ty", "content", "born")
+    __slots__ = ("ty", "content", "born", "ghost")
 
-    def __init__(self, ty, content, born):
+    def __init__(self, ty, content, born, ghost=None):
         self.ty = ty
         self.content = content
         self.born = born  # allocation epoch (for loop frame checks)
+        self.ghost = ghost  # dict: cnt (multiset count array), size, keys (insertion order)
 
     def copy(self):
         c = self.content
-        return Cell(self.ty, dict(c) if isinstance(c, dict) else c, self.born)
+        return Cell(self.ty, dict(c) if isinstance(c, dict) else c, self.born, dict(self.ghost) if self.ghost else None)
 
 
 class Event:
